@@ -101,8 +101,10 @@ Inductive case :=
 | CHugr (r : rt)
 | CPkg (mods : list rt) (same_as_modules : bool) (schema : bool)   (* Package([...]) document *)
 | CExt (roundtrip : bool) (schema : bool)                          (* Extension document *)
-(* Hugr(root_op) followed by a history of public-API calls; which calls returned normally; the final HUGR *)
-| CHist (o : opinfo) (cs : list hc) (rets : list bool) (r : rt)
+(* Hugr(root_op) followed by a history of public-API calls; which calls returned normally; whether the harness
+   expects the premise hist_ok to hold (every generated call is inside the guard: it holds unless a node is
+   added after a deletion); the final HUGR *)
+| CHist (o : opinfo) (cs : list hc) (rets : list bool) (noreuse : bool) (r : rt)
 (* a history applied to the HUGR a builder program produced (start = its store state as the queries show it) *)
 | CMut (st : zst) (cs : list hc) (rets : list bool) (r : rt).
 
@@ -136,7 +138,7 @@ Definition corr (c : case) : bool :=
   | CHugr r => corr_rt r
   | CPkg mods _ _ => forallb (fun r => option_eqb serial_eqb (M_to_serial (r_h r)) (r_doc r)) mods
   | CExt _ _ => true
-  | CHist o cs rets r => corr_rt r && corr_hist (Hinit o) cs rets r
+  | CHist o cs rets nr r => corr_rt r && corr_hist (Hinit o) cs rets r && Bool.eqb (hist_ok (Hinit o) cs) nr
   | CMut st cs rets r => corr_rt r && corr_hist st cs rets r
   end.
 
@@ -160,7 +162,7 @@ Definition mon_hist (o : opinfo) (cs : list hc) (rets : list bool) (r : rt) : bo
 Definition mon2 (c : case) : bool :=
   match c with
   | CHugr r => mon2_rt r
-  | CHist o cs rets r => mon2_rt r && mon_hist o cs rets r
+  | CHist o cs rets _ r => mon2_rt r && mon_hist o cs rets r
   | CMut _ _ _ r => mon2_rt r
   | _ => true
   end.
@@ -176,7 +178,7 @@ Definition mon3_rt (r : rt) : bool :=
   end.
 Definition mon3 (c : case) : bool :=
   match c with
-  | CHugr r | CHist _ _ _ r | CMut _ _ _ r => mon3_rt r
+  | CHugr r | CHist _ _ _ _ r | CMut _ _ _ r => mon3_rt r
   | CPkg mods same schema => same && schema && forallb mon3_rt mods
   | CExt rtrip schema => rtrip && schema
   end.
